@@ -31,6 +31,7 @@ type docGen struct {
 	noUnknown  bool // never generate unknown steps (for signing)
 	pathPlugin bool // plugin sources are paths ("./x"), which FullSource leaves as written
 	oneCommand bool // always a single `command` string
+	noNullItems bool // never a null inside a list of scalars
 	noSig      bool
 	plain      bool // scalars are strings and small non-negative integers only
 	typed      bool // also steps whose kind comes from an explicit `type` key
@@ -123,6 +124,11 @@ func (g *docGen) pluginConfig() any {
 			return []any{false, 0, "", "cfg", 5, true}[g.pick(6)] // a scalar config is data too
 		}
 		return nil
+	case 2:
+		if g.pick(2) == 0 {
+			return g.str("val") // a config that is one bare string (expanded / kept like any other string)
+		}
+		return g.freeMap(1, g.mapSize(1+g.pick(3)))
 	default:
 		return g.freeMap(1, g.mapSize(1+g.pick(3)))
 	}
@@ -176,6 +182,9 @@ func (g *docGen) matrix() any {
 		l := []any{}
 		for i, n := 0, 1+g.pick(3); i < n; i++ {
 			l = append(l, mval(true))
+			if !g.noNullItems && g.pick(9) == 0 {
+				l = append(l, nil) // a null item of a list of scalars is the empty string
+			}
 		}
 		return l
 	}
@@ -286,6 +295,14 @@ func (g *docGen) extras(pairs [][2]any, n int) [][2]any {
 	return pairs
 }
 
+// nullItem: now and then a null sits between the items of a list of scalars (it reads as the empty string).
+func (g *docGen) nullItem(l []any) []any {
+	if g.noNullItems || g.pick(7) != 0 {
+		return l
+	}
+	return []any{l[0], nil, l[1]}
+}
+
 func (g *docGen) commandStep() orderedJSON {
 	p := [][2]any{}
 	if !g.oneCommand && g.pick(9) == 0 {
@@ -295,9 +312,9 @@ func (g *docGen) commandStep() orderedJSON {
 	} else if g.oneCommand || g.pick(2) == 0 {
 		p = append(p, [2]any{"command", g.str("command")})
 	} else if g.pick(2) == 0 {
-		p = append(p, [2]any{"commands", []any{g.str("command"), g.str("command")}})
+		p = append(p, [2]any{"commands", g.nullItem([]any{g.str("command"), g.str("command")})})
 	} else {
-		p = append(p, [2]any{"command", []any{g.str("command"), g.str("command")}})
+		p = append(p, [2]any{"command", g.nullItem([]any{g.str("command"), g.str("command")})})
 	}
 	// any combination of a primary key and its aliases
 	for _, k := range []string{"key", "id", "identifier"} {
@@ -360,7 +377,7 @@ func (g *docGen) contentStep(kindKey string) orderedJSON {
 }
 
 func (g *docGen) step(depth int) any {
-	r := g.pick(12)
+	r := g.pick(13)
 	switch {
 	case r < 5:
 		return g.commandStep()
@@ -406,6 +423,15 @@ func (g *docGen) step(depth int) any {
 		return orderedJSON(p)
 	case r == 10 && !g.noUnknown:
 		return g.freeMap(0, 1+g.pick(3)) // no kind-determining key: an unknown step
+	case r == 12 && !g.noUnknown:
+		// a bare scalar that is none of the five scalar steps: kept (with a warning) as an unknown step whose content is that string
+		s := g.str("val")
+		for _, known := range []string{"wait", "waiter", "block", "input", "manual", ""} {
+			if s == known {
+				s = "scalar " + s
+			}
+		}
+		return s
 	case r == 11 && g.typed:
 		// the kind given by an explicit `type` key (no kind-determining key needed)
 		t := []string{"wait", "waiter", "block", "input", "manual", "trigger", "command", "script"}[g.pick(8)]
